@@ -37,8 +37,10 @@ Definition flag (c : N -> bool) (j : N) : N -> bool := fun x => (x =? j) || c x.
    [bacl] = NeedACL (its paths carry more than one configuration, so it has maps);
    [brssl] = hosts whose root path, served here, has ssl-redirect *)
 Record bcont := { bver : N; bacl : bool; bpaths : list (N * N); brssl : list N }.
-(* a host: [hpaths] = (path, backend); path 0 is "/" *)
-Record hcont := { hver : N; htls : bool; hpaths : list (N * N) }.
+(* a host: [hpaths] = (path, backend); path 0 is "/"; [halias] = the other names it answers to
+   (server-alias, server-alias-regex): keys of the frontend maps and of the idpath maps of its
+   backends, and part of no backend *)
+Record hcont := { hver : N; htls : bool; hpaths : list (N * N); halias : list N }.
 (* a tcp service (hostname:port); its name t encodes the port as t mod 10 *)
 Record tcont := { tback : N; ttls : bool }.
 
@@ -52,7 +54,8 @@ Definition pair_eqb (p q : N * N) : bool := (fst p =? fst q) && (snd p =? snd q)
 Definition bcont_eqb (a b : bcont) : bool :=
   (bver a =? bver b) && Bool.eqb (bacl a) (bacl b) && list_eqb pair_eqb (bpaths a) (bpaths b) && list_eqb N.eqb (brssl a) (brssl b).
 Definition hcont_eqb (a b : hcont) : bool :=
-  (hver a =? hver b) && Bool.eqb (htls a) (htls b) && list_eqb pair_eqb (hpaths a) (hpaths b).
+  (hver a =? hver b) && Bool.eqb (htls a) (htls b) && list_eqb pair_eqb (hpaths a) (hpaths b) &&
+  list_eqb N.eqb (halias a) (halias b).
 
 Definition optN_eqb (a b : option N) : bool :=
   match a, b with Some x, Some y => x =? y | None, None => true | _, _ => false end.
@@ -110,7 +113,9 @@ Definition backs_acquire (e : env) (b : backends) (x : N) (c : bcont) : backends
 
 (* Shrink: len(add.Endpoints) <= len(del.Endpoints) && backendsMatch(add, del).  backendsMatch
    copies PathsMap, pathConfig and Endpoints but not PathsDefaultHostMap, which WriteBackendMaps
-   sets on every backend that needs maps: such a backend never matches. *)
+   sets on every backend that needs maps: such a backend never matches, stays in itemsAdd and
+   has its maps written again - which the files rely on, since those maps also hold keys that
+   come from the hosts (see [bmap_keys]) and a host may change while the backend does not. *)
 Definition bmatch (b : backends) (x : N) : bool :=
   match b_del b x, b_add b x with
   | Some d, Some a => bcont_eqb a d && negb (bacl d)
@@ -318,6 +323,19 @@ Definition port_tls (e : env) (items : fmap tcont) (p : N) : bool :=
 Definition any_host (e : env) (m : fmap hcont) : bool := existsb (fun h => isSome (m h)) (UH e).
 Definition any_rssl (e : env) (f : N -> bool) : bool := existsb f (UH e).
 Definition needs_map (c : bcont) : bool := bacl c && match bpaths c with [] => false | _ => true end.
+(* the keys of the idpath maps of backend x (WriteBackendMaps): for every path of the backend whose
+   host exists and holds that path, the hostname and every alias of the host (config.hostAliases();
+   no two hosts of a history claim the same alias).  The map is a function of the backend AND of
+   the hosts its paths belong to. *)
+Definition bmap_keys (hs : fmap hcont) (x : N) (bc : bcont) : list (N * N) :=
+  flat_map (fun hp : N * N =>
+              match hs (fst hp) with
+              | Some hc =>
+                if existsb (fun q : N * N => (fst q =? snd hp) && (snd q =? x)) (hpaths hc)
+                then hp :: map (fun a => (a, snd hp)) (halias hc)
+                else []
+              | None => []
+              end) (bpaths bc).
 
 (* ---------------------------------------------------------------- fault points *)
 
@@ -392,7 +410,7 @@ Definition ph_backmaps (e : env) (fs : list fpoint) (c : config) (d : disk) : di
     let w := fun x => match b_add (c_b c) x with Some bc => needs_map bc | None => false end in
     if armed fs FBackMaps && existsb w (UB e) then (d, true)
     else (with_backmap d (fun x => match b_add (c_b c) x with
-                                   | Some bc => if needs_map bc then Some (bpaths bc) else d_backmap d x
+                                   | Some bc => if needs_map bc then Some (bmap_keys (h_items (c_h c)) x bc) else d_backmap d x
                                    | None => d_backmap d x end), false)
   else (d, false).
 
